@@ -320,7 +320,9 @@ var (
 	c43TenantToks = []string{"a", "b", "c", ":", ",", "|", "true", "1000", "[]", "-"}
 	c43TextToks   = []string{"a", "b", "c", ":", ",", "\\", "true", "false", "1000", "[]", "-", "3600000"}
 	c43QueryToks  = []string{"a", "b", "c", ":", "1000", "3600000"}
-	c43Matchers   = []string{`a="b"`, `a="b:c"`, `c="d"`, `a=":"`, `e="[]"`}
+	c43Matchers   = []string{`a="b"`, `a="b:c"`, `c="d"`, `a=":"`, `e="[]"`, `a="b\\"`, `a="\\\\"`, `a="\\,"`, `a="\\:c"`}
+	// label names: separators and the escape character (alone, trailing, doubled, before a separator)
+	c43LabelToks = []string{"a", "b", "c", ":", ",", "\\", "[]"}
 )
 
 func c43Toks(r *rand.Rand, alphabet []string, min, max int) []string {
@@ -365,7 +367,7 @@ func c43Random(r *rand.Rand) map[string]any {
 	tenant := c43Toks(r, c43TenantToks, 1, 3)
 	switch r.Intn(4) {
 	case 0:
-		return map[string]any{"kind": "labels", "tenant": tenant, "label": c43Toks(r, c43TextToks[:5], 0, 3),
+		return map[string]any{"kind": "labels", "tenant": tenant, "label": c43Toks(r, c43LabelToks, 0, 3),
 			"matchers": c43MatcherList(r), "partial": r.Intn(2) == 0, "split": 3600000, "start": 0,
 			"storem": []string{}, "nostore": false}
 	case 1:
@@ -375,7 +377,7 @@ func c43Random(r *rand.Rand) map[string]any {
 	}
 	storem := []string{}
 	if r.Intn(10) == 0 {
-		storem = []string{`a="b"`}
+		storem = []string{c43Matchers[r.Intn(len(c43Matchers))]}
 	}
 	// a metric name (may contain ':' and digits, starts with a letter or ':'): the split middleware
 	// re-prints the query, anything else (number literals, ...) would be normalised on the way
@@ -428,10 +430,37 @@ func c43Mutate(r *rand.Rand, a map[string]any) map[string]any {
 				return b
 			}
 		case "labels":
-			if l, rr, ok := c43Resplit(r, strs(b["tenant"]), strs(b["label"]), ":"); ok && len(l) > 0 {
+			// (a tenant ID cannot contain the escape character: the resolver rejects '\\')
+			if l, rr, ok := c43Resplit(r, strs(b["tenant"]), strs(b["label"]), ":"); ok && len(l) > 0 && !strings.Contains(strings.Join(l, ""), "\\") {
 				b["tenant"], b["label"] = l, rr
 				return b
 			}
+		}
+	}
+	if r.Intn(4) == 0 { // the escape character at the end of a field, in front of the separator that follows
+		x, y := c43Toks(r, []string{"a", "b", "r", "\\"}, 0, 2), c43Toks(r, []string{"a", "b", "s", "\\"}, 1, 2)
+		bs := []string{"\\"}
+		if r.Intn(3) == 0 {
+			bs = []string{"\\", "\\"}
+		}
+		switch {
+		case kind != "labels" && r.Intn(2) == 0: // replica labels [x\, y] vs [x,y] / [x\,y]
+			two := [][]string{append(append([]string{}, x...), bs...), y}
+			sort.Slice(two, func(i, j int) bool { return strings.Join(two[i], "") < strings.Join(two[j], "") })
+			one := append(append(append([]string{}, x...), ","), y...)
+			if r.Intn(2) == 0 {
+				one = append(append(append(append([]string{}, x...), bs...), ","), y...)
+			}
+			a["replicas"], b["replicas"] = two, [][]string{one}
+			return c43Clone(b)
+		case kind == "range": // engine e\ + partial vs engine e:<partial> etc.
+			a["engine"] = append(append([]string{"e"}, x...), bs...)
+			b["engine"] = append(append(append([]string{"e"}, x...), ":"), []string{"true", "false"}[r.Intn(2)])
+			return c43Clone(b)
+		case kind == "labels": // label name l\ vs l:<matchers text>
+			a["label"] = append(append([]string{"l"}, x...), bs...)
+			b["label"] = append(append(append([]string{"l"}, x...), ":"), "[]")
+			return c43Clone(b)
 		}
 	}
 	fresh := c43Random(r)
